@@ -271,10 +271,13 @@ def _traversal_starts(mod, fn, param, depth=0):
             continue  # the conversion itself
         p = n._parent
         in_loop, q = False, n
+        child = n
         while q is not fn:
-            if isinstance(q, (ast.For, ast.While)) and not (isinstance(q, ast.For) and q.iter is n) or isinstance(q, ast.comprehension) and q.iter is not n:
+            # (the iterable expression of a for / the first comprehension clause is evaluated once, before the loop)
+            if isinstance(q, ast.For) and child is not q.iter or isinstance(q, ast.While) or \
+                    isinstance(q, ast.comprehension) and child is not q.iter:
                 in_loop = True
-            q = q._parent
+            child, q = q, q._parent
         if (isinstance(p, (ast.For, ast.comprehension)) and p.iter is n) or (isinstance(p, ast.Call) and call_name(p) == "iter" and p.args and p.args[0] is n):
             out.append((n, in_loop))
             continue
